@@ -312,12 +312,20 @@ func (r *runner) doReqX(st *Step, x int) {
 	if st.Cancel == 2 {
 		cancel()
 	}
+	if st.Cancel == 3 {
+		// the caller's context has a deadline of its own, far beyond any cache timeout, and lives on after the return
+		var c2 context.CancelFunc
+		ctx, c2 = context.WithTimeout(ctx, 300*time.Second)
+		r.mu.Lock()
+		r.cancels = append(r.cancels, c2)
+		r.mu.Unlock()
+	}
 	req, err := w.buildRequest(ctx, st.Rq)
 	if err != nil {
 		w.log.Emit(M{"ev": "skip", "x": x, "why": "url: " + err.Error()})
 		return
 	}
-	e := &exchange{x: x, gid: gid(), ans: st.Ans, faults: st.Faults, open: true, hdr: req.Header.Clone(), cancel: st.Cancel, noStore: contains(st.Rq.Fl, "no-store")}
+	e := &exchange{x: x, gid: gid(), ans: st.Ans, faults: st.Faults, open: true, hdr: req.Header.Clone(), url: req.URL.String(), cancel: st.Cancel, noStore: contains(st.Rq.Fl, "no-store")}
 	w.mu.Lock()
 	w.ex[x] = e
 	w.mu.Unlock()
@@ -327,7 +335,7 @@ func (r *runner) doReqX(st *Step, x int) {
 	t0 := w.now()
 	hard := 0
 	for _, f := range st.Faults {
-		if f.Kind != "trunc" && f.Kind != "flip" && f.Kind != "flipat" && f.Kind != "truncat" && f.Kind != "extend" {
+		if f.Kind != "trunc" && f.Kind != "flip" && f.Kind != "flipat" && f.Kind != "flipat1" && f.Kind != "truncat" && f.Kind != "extend" {
 			hard = 1
 		}
 	}
@@ -461,8 +469,9 @@ func (r *runner) doReqX(st *Step, x int) {
 			// from, with fields replaced by the 304s that freshened it since
 			extra, missing := []string{}, []string{}
 			for k, v := range want {
-				// (a Date the origin sent is an end-to-end field like any other; one it did not send may be added)
-				if cacheOwn[k] || k == "Content-Length" {
+				// (a Date the origin sent is an end-to-end field like any other; one it did not send may be added;
+				// so is the Content-Length of a response that was framed by it)
+				if cacheOwn[k] {
 					continue
 				}
 				if k == "X-Secret" || k == "Etag" && strings.Contains(strings.ToLower(strings.Join(want["Cache-Control"], ",")), `"etag, x-secret"`) {
@@ -514,11 +523,16 @@ func (r *runner) doReqX(st *Step, x int) {
 	if st.Reuse > 0 && req != nil {
 		// the request belongs to the caller again: it changes a header for its next use while background work
 		// of the cache may still be going on
-		req.Header.Set(SelFields[2], selValue(2, st.Reuse, 0))
+		if st.Reuse >= 10 {
+			req.URL.RawQuery = "q=reused" + strconv.Itoa(st.Reuse) // another resource altogether
+		} else {
+			req.Header.Set(SelFields[2], selValue(2, st.Reuse, 0))
+		}
 		r.mu.Lock()
 		for _, rp := range r.replies {
 			if rp.req == req {
 				rp.rsnp = req.Header.Clone()
+				rp.rurl = req.URL.String()
 			}
 		}
 		r.mu.Unlock()
